@@ -106,6 +106,35 @@ def locateBlocks (c : Chain) (hasBlock : Nat → Bool) (locator : List Nat) (sto
     | none => .err
     | some bs => .ok bs
 
+/-! ### the request handlers of `handle.go` (what the peer gets back)
+
+`none` = nothing is sent (the handler logs and returns).  There is no `panic` outcome to
+model on the code as it is: the handlers never index the located slice (tied:
+`Src.handleGetBlocksMsgIndexing = []`) and return early on an error or an EMPTY result. -/
+
+/-- `handleGetHeadersMsg`: `locateHeaders(…, maxNumOfHeadersPerMsg)`; an error or an empty
+    result sends nothing, otherwise one headers message -/
+def handleGetHeaders (c : Chain) (locator : List Nat) (stop skip : Nat) : Option (List Header) :=
+  match locateHeaders c locator stop skip maxNumOfHeadersPerMsg with
+  | .ok (x :: l) => some (x :: l)
+  | _ => none
+
+/-- `handleGetBlocksMsg`: `locateBlocks`; an error or an empty result sends nothing, otherwise
+    one blocks message with the blocks that fit the size budget (`fits` = how many of the
+    located blocks fit `MaxBlockchainResponseSize/2`; the message may hold zero blocks) -/
+def handleGetBlocks (c : Chain) (hasBlock : Nat → Bool) (locator : List Nat) (stop : Nat) (timeoutAfter fits : Nat) :
+    Option (List Header) :=
+  match locateBlocks c hasBlock locator stop timeoutAfter with
+  | .ok (x :: l) => some ((x :: l).take fits)
+  | _ => none
+
+/-- `handleGetBlockMsg` / `handleGetMerkleBlockMsg`: by height when `msg.Height != 0`, else by hash -/
+def handleGetBlock (c : Chain) (hasBlock : Nat → Bool) (height id : Nat) : Option Header :=
+  if height ≠ 0 then c.byHeight height
+  else match c.byHash id with
+    | some h => if hasBlock id then some h else none
+    | none => none
+
 /-! ### decidable readings of the property on one response (used by the search mode) -/
 
 def heightsIncreasing : List Header → Bool
@@ -143,6 +172,18 @@ def locateHeadersSha : String := "972fd4fa134a52ab51a33833266e46a52cc4ae171749eb
 def locateBlocksCall : String := "bk.locateHeaders(locator, stopHash, 0, maxNumOfBlocksPerMsg)"
 def locateBlocksSha : String := "417bc4f15d04b0c535b620d4cebe3930eb0396b6e5d27af5bb37e55e97b62519"
 def handlerCalls : List String := ["m.blockKeeper.locateBlocks(msg.GetBlockLocator(), msg.GetStopHash(), isTimeout)", "m.blockKeeper.locateHeaders(msg.GetBlockLocator(), msg.GetStopHash(), msg.GetSkip(), maxNumOfHeadersPerMsg)"]
+def handleGetBlocksMsgIfs : List String := ["err != nil || len(blocks) == 0", "err != nil", "totalSize+len(rawData) > msgs.MaxBlockchainResponseSize/2", "!ok", "err != nil"]
+def handleGetBlocksMsgIndexing : List String := []
+def handleGetBlocksMsgSha : String := "4ce8cd2e1959958055d24f5930ede7eaa618e12bc16f69b5e58ea817a6d72bc5"
+def handleGetHeadersMsgIfs : List String := ["err != nil || len(headers) == 0", "!ok", "err != nil"]
+def handleGetHeadersMsgIndexing : List String := []
+def handleGetHeadersMsgSha : String := "56b539b6ca3bb334f5848cff9fc4eb360b0f669c304ab2f0f63009333f6a4d18"
+def handleGetBlockMsgIfs : List String := ["msg.Height != 0", "err != nil", "!ok", "err != nil"]
+def handleGetBlockMsgIndexing : List String := []
+def handleGetBlockMsgSha : String := "02b57dd1bafb16c19c31e4d72d3b39f09d95a0280f20057377eb0e226c0cbb2f"
+def handleGetMerkleBlockMsgIfs : List String := ["msg.Height != 0", "err != nil", "err != nil", "!ok"]
+def handleGetMerkleBlockMsgIndexing : List String := []
+def handleGetMerkleBlockMsgSha : String := "a75864481614e9584a381b40f760d59def13c73a928cfed6723c1e8f6ed95ebe"
 end Src
 
 end BytomModel.Model.Sync
